@@ -84,6 +84,13 @@ CheckDispatch(ev) ==
   \cup (IF ev.conflicts # <<>> THEN {F("C11", "overlap observed by the per-storage reader/writer counters", ev.conflicts)} ELSE {})
   \cup {F("C11", "a system started before a dependency finished", ev.systems[L[k].sys].name) : k \in depBad}
   \cup {F("C11", "a barrier was not respected", <<ev.systems[L[p[1]].sys].name, ev.systems[L[p[2]].sys].name>>) : p \in barBad}
+  \* the systems that share the entities resource as readers create entities through it while they overlap:
+  \* no two creations of the run return the same handle, and within a round (the deletions are deferred to
+  \* the maintain that follows it) no two of the created entities share an index
+  \cup (LET M == IF "made" \in DOMAIN ev THEN ev.made ELSE <<>>
+            dup == {p \in (1..Len(M)) \X (1..Len(M)) : p[1] < p[2] /\ (M[p[1]].h = M[p[2]].h \/ (M[p[1]].round = M[p[2]].round /\ M[p[1]].h[1] = M[p[2]].h[1]))}
+        IN {F("C11", "systems sharing the entities resource were handed the same entity / index (system, round, handle)",
+              <<<<M[p[1]].sys, M[p[1]].round, M[p[1]].h>>, <<M[p[2]].sys, M[p[2]].round, M[p[2]].h>>>>) : p \in dup})
 
 Check(ev) == IF ev.op = "Table" THEN CheckTable(ev) ELSE CheckDispatch(ev)
 =============================================================================
